@@ -17,7 +17,7 @@ from fsmc.explorer import ProductSystem, ListSystem
 PID = "C17"
 RULE = ("all 3^9 three-valued 3x3 windows; all 576 unit impulses x polylines x layers x placements; configurations within the deviation bound; "
         "non-trivial = image not constant; classes = config signature / window multiset / impulse-response signature")
-BOUND = {"quick": "all 19683 windows; all 576 impulses x 6 polylines x layers 0..2 x 2 placements; deviation bound 2 over 8 axes",
+BOUND = {"quick": "all 19683 windows; all 576 impulses x 6 polylines x layers 0..2 x 2 placements; deviation bound 2 over 8 axes (incl. images in which one interface is exactly black); every plain-list call repeated with default-valued arguments omitted",
          "thorough": "same with layers 0..3 and 3 placements; deviation bound 3"}
 ASSUMPTIONS = ["PIL truncates fractional pixel coordinates toward zero; all placements keep coordinates positive",
                "the window of the LAST vertex of a polyline is not part of the integrated band (the walk stops before the end point); images are dark there so the convention does not matter in the configuration sweep; the impulse sweep reports it",
